@@ -17,6 +17,9 @@ pub enum Decl {
     Global(u8),
     /// a local only (must not show up anywhere)
     Local(u8),
+    /// `---@class (private) C<i>`: a file-private class that shares its name with the workspace-wide class C<i>
+    /// (a type of its own: one more entry of that name); every C<i> of the same file is then private
+    PrivClass(u8),
 }
 
 #[derive(Clone, Debug, Serialize, Deserialize)]
@@ -39,13 +42,19 @@ fn decl_strategy() -> impl Strategy<Value = Decl> {
         2 => (0u8..4).prop_map(Decl::Alias),
         2 => (0u8..4).prop_map(Decl::Global),
         1 => (0u8..4).prop_map(Decl::Local),
+        1 => (0u8..4).prop_map(Decl::PrivClass),
     ]
 }
 
 fn render(prefix: &str, fi: usize, decls: &[Decl]) -> String {
     let mut s = String::new();
+    let private_here = |i: &u8| decls.iter().any(|d| matches!(d, Decl::PrivClass(j) if j == i));
     for (k, d) in decls.iter().enumerate() {
         match d {
+            Decl::Class(i) | Decl::PrivClass(i) if private_here(i) => s.push_str(&format!("--- private class {prefix}C{i} of file {fi}\n---@class (private) {prefix}C{i}\n---@field p{fi}_{k} string\nlocal c{k} = {{}}\n\n")),
+            // odd class indices are declared `(partial)` everywhere, even ones plainly
+            Decl::Class(i) if i % 2 == 1 => s.push_str(&format!("--- class {prefix}C{i} part {fi}\n---@class (partial) {prefix}C{i}\n---@field f{fi}_{k} integer\nlocal c{k} = {{}}\n\n")),
+            Decl::PrivClass(_) => {}
             Decl::Class(i) => s.push_str(&format!("--- class {prefix}C{i} part {fi}\n---@class {prefix}C{i}\n---@field f{fi}_{k} integer\nlocal c{k} = {{}}\n\n")),
             Decl::Enum(i) => s.push_str(&format!("---@enum {prefix}E{i}_{fi}\nlocal e{k} = {{ A = 1, B = 2 }}\n\n")),
             Decl::Alias(i) => s.push_str(&format!("---@alias {prefix}A{i}_{fi} string|integer\n\n")),
@@ -82,7 +91,7 @@ impl Property for C35 {
         "C35"
     }
     fn rule(&self) -> String {
-        "cases = on-disk workspaces: a main root with 1-4 files declaring classes (the same class may be split across files), enums, aliases, documented globals and locals, plus a library root (workspace.library in .emmyrc.json) with its own declarations; the real emmylua_doc_cli is run twice in fresh processes with --output-format json; oracle: the two doc.json files are byte-identical; the parsed export lists every main-workspace class/enum/alias/global/module exactly once (by name and kind) and lists nothing that is declared only in the library root or in the standard library, and no locals; non-trivial = >=3 declarations of >=2 kinds in the main root and a non-empty library root".into()
+        "cases = on-disk workspaces: a main root with 1-4 files declaring classes (the same class may be split across files), enums, aliases, documented globals and locals, plus a library root (workspace.library in .emmyrc.json) with its own declarations; the real emmylua_doc_cli is run twice in fresh processes with --output-format json; oracle: the two doc.json files are byte-identical; the parsed export lists every main-workspace class/enum/alias/global/module exactly once (by name and kind; a `(private)` class of a file is a type of its own and adds one entry of its name; odd class indices are `(partial)`) and lists nothing that is declared only in the library root or in the standard library, and no locals; non-trivial = >=3 declarations of >=2 kinds in the main root and a non-empty library root".into()
     }
     fn assumptions(&self) -> Vec<String> {
         vec!["hash seeds are sampled by the two fresh processes, not controlled".into()]
@@ -108,7 +117,8 @@ impl Property for C35 {
         ws.clear();
         outdir.clear();
         let root = ws.root.canonicalize().unwrap_or(ws.root.clone());
-        let mut expect: BTreeMap<(String, String), usize> = BTreeMap::new(); // (kind, name) -> expected count 1
+        let mut expect: BTreeMap<(String, String), usize> = BTreeMap::new(); // (kind, name) -> expected number of entries
+        let mut global_class: BTreeSet<u8> = BTreeSet::new();
         let mut modules: BTreeSet<String> = BTreeSet::new();
         for (fi, decls) in c.files.iter().enumerate() {
             let (rel, module) = if fi % 2 == 1 { (format!("main/sub/m{fi}.lua"), format!("sub.m{fi}")) } else { (format!("main/m{fi}.lua"), format!("m{fi}")) };
@@ -116,8 +126,19 @@ impl Property for C35 {
             modules.insert(module);
             for d in decls {
                 match d {
-                    Decl::Class(i) => {
-                        expect.insert(("class".into(), format!("C{i}")), 1);
+                    Decl::Class(i) | Decl::PrivClass(i) => {
+                        let private_here = decls.iter().any(|d| matches!(d, Decl::PrivClass(j) if j == i));
+                        let first_here = decls.iter().position(|x| matches!(x, Decl::Class(j) | Decl::PrivClass(j) if j == i)) == decls.iter().position(|x| std::ptr::eq(x, d));
+                        let e = expect.entry(("class".into(), format!("C{i}"))).or_insert(0);
+                        if private_here {
+                            // one file-private type per file, however many blocks declare it there
+                            if first_here {
+                                *e += 1;
+                                obs.class("file-private-class-sharing-a-name");
+                            }
+                        } else if global_class.insert(*i) {
+                            *e += 1;
+                        }
                     }
                     Decl::Enum(i) => {
                         expect.insert(("enum".into(), format!("E{i}_{fi}")), 1);
@@ -157,10 +178,13 @@ impl Property for C35 {
             let name = m.get("name").and_then(|x| x.as_str()).unwrap_or("").to_string();
             *got_modules.entry(name).or_default() += 1;
         }
-        for (k, _) in &expect {
+        for (k, want) in &expect {
             let n = got.get(k).copied().unwrap_or(0);
-            if n != 1 {
-                return Verdict::fail(format!("export-count:{}:{}", k.0, if n == 0 { "missing" } else { "duplicated" }), format!("main-workspace {} `{}` is listed {n} times in the export", k.0, k.1));
+            if n != *want {
+                return Verdict::fail(
+                    format!("export-count:{}:{}", k.0, if n < *want { "missing" } else { "duplicated" }),
+                    format!("main-workspace {} `{}` is listed {n} times in the export, expected {want} (one per declared type: the workspace-wide one and each file-private one)", k.0, k.1),
+                );
             }
         }
         for (k, _) in &got {
